@@ -414,11 +414,9 @@ func rulesSortCmp(c *Ctx, r *Report) {
 	// returns keyed by guard
 	type ret struct{ guard, val string }
 	var rets []ret
-	instrs(el, func(in ssa.Instruction) {
-		if rt, ok := in.(*ssa.Return); ok {
-			rets = append(rets, ret{guardOf(s, rt.Block(), nil), s.expr(rt.Results[0]).String()})
-		}
-	})
+	for _, rc := range returnCases(s, el) {
+		rets = append(rets, ret{rc.guard, s.expr(rc.vals[0]).String()})
+	}
 	okPos, okKind := false, false
 	for _, x := range rets {
 		if x.guard == "(load(P0.f1) != load(P1.f1))" && x.val == "(load(P0.f1) < load(P1.f1))" {
